@@ -15,7 +15,8 @@ CONFIG = {
             'FileStream (real temporary file, empty / 2 bytes), plus every history of 4-5 (quick) / 4-6 (thorough) calls over a '
             '5-6 letter alphabet; (2) random histories of 150-6000 calls per store with positions aimed at the end of the data '
             'and at 2^63 / 2^64-k, and (2b) read-only / write-only local files opened through file:// URIs '
-            '(SeekStream::CreateForRead mode r, Stream::Create mode w); (3) dmlc::ostream with buffer sizes 0..17 and 1024: every sequence of <= 2-4 operations over '
+            '(SeekStream::CreateForRead mode r, Stream::Create mode w), (2c) files of 1-4 MiB with read requests of up to 4 MiB (results compared '
+            'as count + FNV-1a hash + position); (3) dmlc::ostream with buffer sizes 0..17 and 1024: every sequence of <= 2-4 operations over '
             '{put, write of 0/1/2/cap-1/cap/cap+1/2cap+1 bytes via write() or operator<<, flush, set_stream to the same / another of three '
             'recording streams, overflow(EOF), seek of the wrapped stream} followed by destruction, plus random sequences of up to 600 '
             'operations; (4) dmlc::istream over three recording streams, '
